@@ -30,6 +30,7 @@ typedef struct {
   int inj_density;
   int destroy_outstanding;
   int reload_vs_destroy; /* rewrite resolv.conf right before ares_destroy() */
+  int sortlist_one_size;
   int reinit_mode; /* 0 none 1 one client 2 all clients 3 config-change only (event thread) 4 all + config-change */
   int beh[ET_NSRV];
   int delay_ms[ET_NSRV];
@@ -585,7 +586,7 @@ static void et_do_op(et_client_t *c, int kind)
       et_api_set_servers_csv(et_srv_csv[vh_below(g, 4)]);
       break;
     case K_SORTLIST:
-      et_api_set_sortlist(et_sortlists[vh_below(g, 4)]);
+      et_api_set_sortlist(et_sortlists[et_cfg.sortlist_one_size ? 3 * vh_below(g, 2) : vh_below(g, 4)]);
       break;
     case K_REINIT:
       if (et_api_reinit() != ARES_SUCCESS) {
